@@ -253,7 +253,8 @@ def kind_of_appended_values(ctx, rule):
            'an object column of booleans (object_encoding bool) is a legitimate source for a boolean column; refusing every '
            'dtype whose kind differs turns valid appends away', api.loc(f))
     g = wr.func('convert')
-    rng = [x for x in walk_no_nested(g) if isinstance(x, ast.If) and 'data.values.min()' in norm(x.test) and any(isinstance(y, ast.Raise) for y in x.body)]
+    rng = [x for x in walk_no_nested(g) if isinstance(x, ast.If) and ('data.values.min()' in norm(x.test) or 'int(values.min())' in norm(x.test))
+           and any(isinstance(y, ast.Raise) for y in x.body)]
     cfg = CFG(g)
     cover = []
     for x in rng:
@@ -310,7 +311,35 @@ def write_conversions(ctx, rule):
         ok = pi is not None and 'converted_type' in norm(pi) and "('INT', 'UINT')" in norm(pi) and 'logicalType' in norm(pi)
     ctx.ob(rule, 'writer.write_column:objects-cast-to-integers-only-where-integers-stand-for-themselves', ok,
            '%d cast(s) of objects to int64 / int32, %d refusing guard(s) on the annotation in front of them' % (len(casts), len(guards)), wr.loc(f))
+    # ... the refusal is about values: a chunk that holds nulls only (nothing left after the nulls were taken out) passes
+    ctx.ob(rule, 'writer.write_column:a-chunk-of-nulls-only-is-not-refused', bool(guards) and all('len(data)' in norm(g_.test) for g_ in guards),
+           'guards: %s' % [norm(g_.test)[:80] for g_ in guards], wr.loc(f))
     g = wr.func('convert')
+    # ... and the same refusal on the route of columns that cannot hold nulls (convert, object branch without a converted type)
+    arms = [x for x in walk_no_nested(g) if isinstance(x, ast.If) and norm(x.test) == 'converted_type is None']
+    ok_c = False
+    for a_ in arms:
+        first_cast = [x for x in a_.body if isinstance(x, ast.If) and 'type in revmap' in norm(x.test)]
+        refus = [x for x in a_.body if isinstance(x, ast.If) and '_plain_integers(se)' in norm(x.test) and any(isinstance(r, ast.Raise) for r in x.body)]
+        if first_cast and refus and refus[0].lineno < first_cast[0].lineno and 'len(data)' in norm(refus[0].test):
+            ok_c = True
+    # ... numbers given for an integer-backed DECIMAL column are stored as value * 10**scale (the cast to the primitive
+    # integer is applied to the scaled values), never as they are
+    num = [x for x in g.body if isinstance(x, ast.If) and norm(x.test) == 'dtype.name in typemap']
+    ok_d = False
+    if num:
+        arm_ = ast.Module(body=num[0].body, type_ignores=[])
+        dec = [x for x in ast.walk(arm_) if isinstance(x, ast.If) and 'ConvertedType.DECIMAL' in norm(x.test) and 'INT32' in norm(x.test) and 'INT64' in norm(x.test)]
+        casts_ = [x for x in ast.walk(arm_) if isinstance(x, ast.Assign) and norm(x.targets[0]) == 'out' and isinstance(x.value, ast.Call)
+                  and (callee(x.value) or '').endswith('.astype') and 'revmap[type]' in norm(x.value)]
+        scaled = [x for d_ in dec for x in ast.walk(d_) if isinstance(x, ast.Assign) and norm(x.targets[0]) == 'values' and 'values *' in norm(x.value)]
+        unit = [x for d_ in dec for x in ast.walk(d_) if isinstance(x, ast.Assign) and '10 ** (se.scale or 0)' in norm(x.value)]
+        ok_d = bool(dec) and bool(scaled) and bool(unit) and bool(casts_) and all(norm(c_.value.func.value) == 'values' for c_ in casts_) \
+            and all(d_.lineno < c_.lineno for d_ in dec for c_ in casts_)
+    ctx.ob(rule, 'writer.convert:numbers-for-an-integer-backed-decimal-column-are-scaled', ok_d,
+           'reading such a file and appending what was read must give the same values again', wr.loc(g))
+    ctx.ob(rule, 'writer.convert:objects-cast-to-integers-only-where-integers-stand-for-themselves', ok_c,
+           'a nanosecond-time column carries its annotation in logicalType only (converted_type is None)', wr.loc(g))
     ctx.ob(rule, 'writer.convert:guessed-float-cast-compared-with-the-objects',
            _has(g, lambda x: isinstance(x, ast.If) and "out.dtype.kind == 'f'" in norm(x.test) and 'data.values != out' in norm(x.test)), '', wr.loc(g))
     h = ut.func('reset_row_idx')
@@ -351,7 +380,6 @@ def thrift_reader_forms(ctx, rule10, rule12):
 
 # LogicalType members that need no legacy spelling, one line of reason each
 _LOGICAL_EXEMPT = {
-    'TIMESTAMP': 'read from logicalType directly (typemap / convert look at logicalType.TIMESTAMP first)',
     'UNKNOWN': 'the all-null type: no values to interpret',
     'UUID': 'no legacy equivalent; the 16 bytes are handed out as they are',
 }
@@ -419,7 +447,7 @@ def logical_annotations(ctx, rule):
                     {bool(e.value) if isinstance(e.value, bool) else e.value for e in k.elts} == {m_int.group(1) == '', int(m_int.group(2))} and \
                     any(isinstance(e.value, bool) and e.value == (m_int.group(1) == '') for e in k.elts)
                 why = 'signedness and width of the key must be those of the name'
-            elif nm in ('TIME_MILLIS', 'TIME_MICROS'):
+            elif nm in ('TIME_MILLIS', 'TIME_MICROS', 'TIMESTAMP_MILLIS', 'TIMESTAMP_MICROS'):
                 ok = nm.split('_')[1] in kt
                 why = 'a TIME annotation is told apart by its unit (MILLIS / MICROS; NANOS has no legacy spelling), not by anything else'
             else:
@@ -432,9 +460,9 @@ def logical_annotations(ctx, rule):
     for st in walk_no_nested(g):
         if isinstance(st, ast.Assign):
             nm = legacy_of(st.value)
-            if nm in ('TIME_MILLIS', 'TIME_MICROS'):
+            if nm in ('TIME_MILLIS', 'TIME_MICROS', 'TIMESTAMP_MILLIS', 'TIMESTAMP_MICROS'):
                 tests = ' && '.join(norm(e.test) for e, fld in cfg_g.enclosing_tests(st) if isinstance(e, ast.If) and fld == 'body')
-                ctx.ob(rule, 'schema.%s:legacy-name-%s-under-its-unit' % (fn_name, nm), nm.split('_')[1] in tests,
+                ctx.ob(rule, 'schema.%s:legacy-name-%s-under-its-unit' % (fn_name, nm), nm.split('_')[1] in tests and ("'%s'" % nm.split('_')[0]) in tests,
                        'enclosing tests: %s' % tests[:160], sch.loc(st))
     for e in ast.walk(g):
         if isinstance(e, ast.IfExp) and isinstance(e.body, ast.Constant) and isinstance(e.orelse, ast.Constant) and {e.body.value, e.orelse.value} == {'INT', 'UINT'}:
